@@ -116,6 +116,23 @@ def groupOKb (dag : Dag) (root : Nat) (G : List Nat) : Bool :=
       (npartOf dag g == npartOf dag (G.headD 0) ||
         G.any (fun c => decide (g ∈ depsOf dag c) && bcastN dag c g)))
 
+/-- Order condition for nested groups at any position (NOT covered by `C14_task`, which handles nested
+    groups in first position only): `Fused._task` copies the placeholder entries of a nested member's
+    sub-graph; a dependency of the nested member that is itself a member written *earlier* would have
+    its task overwritten by that stale placeholder.  `nestOrderOK` rejects exactly that shape. -/
+def nestOrderOK (dag : Dag) (f : Node) : Bool :=
+  let rec go (before : List Nat) : List Nat → Bool
+    | [] => true
+    | m :: rest =>
+      (match getNode dag m with
+       | some mn => if mn.members ≠ [] then mn.deps.all (fun d => !decide (d ∈ before)) else true
+       | none => true) && go (before ++ [m]) rest
+  go [] f.members
+
+/-- is every nested group of `f` in first position (the fragment of `C14_task`)? -/
+def nestedFirstOnly (dag : Dag) (f : Node) : Bool :=
+  f.members.tail.all (fun m => match getNode dag m with | some mn => mn.members.isEmpty | none => true)
+
 /-- a decidable sufficient condition for `PlanOK` (Lemmas/FusionMeasure.lean): the root is a node and
     operands have smaller names than their consumers (post-order numbering) -/
 def planOKb (dag : Dag) (root : Nat) : Bool :=
